@@ -97,7 +97,10 @@ class CrossRootHistories:
         return {"canon": hist, "viols": viols, "label": "violation" if viols else "child-ok"}
 
 
-SN_OPS = [["ckd", 0], ["ckd", 1], ["ckd", 5], ["children", 0, 2], ["children", 1, 3], ["path", 0, 1]]
+SN_OPS = [["ckd", 0], ["ckd", 1], ["ckd", 5], ["children", 0, 2], ["children", 1, 3], ["path", 0, 1],
+          # requests that must be REFUSED on the public node (a hardened component), next to their well-formed neighbours: a refusal
+          # must not leave anything behind that a later request picks up
+          ["path", 0, 5], ["path", H + 1, 5], ["path", H + 1, 6], ["path", 0, 6]]
 
 
 class SameNodeHistories:
@@ -125,10 +128,16 @@ class SameNodeHistories:
                 exp = [hdscen.canon_ref_node(hd.derive(refp, [i])) for i in range(op[1], op[2])]
             else:
                 f = lambda node: [hdscen.canon_impl_node(node.derive_path(list(op[1:])))]
-                exp = [hdscen.canon_ref_node(hd.derive(refp, list(op[1:])))]
+                exp = [hdscen.canon_ref_node(hd.derive(refp, list(op[1:])))] if all(i < H for i in op[1:]) else None
             a = attempt(f, pub)
             b = attempt(f, prv)
-            if n == len(hist) - 1:
+            if n == len(hist) - 1 and op[0] == "path" and any(i >= H for i in op[1:]):
+                # hardened from public: refused, always (the private twin is not judged here)
+                if a[0] == "ok":
+                    viols.append(V(P + ":same-node-history:hardened-from-public:derived", "after %r on the same public node, derive_path(%r) returned %r instead of raising" % (
+                        hist[:-1], op[1:], str(a[1])[:100])))
+                label = "violation" if viols else "refused-hardened"
+            elif n == len(hist) - 1:
                 if a[0] != "ok" or a[1] != exp:
                     viols.append(V(P + ":same-node-history:public:wrong-node", "after %r on the same public node, %r gives %r" % (hist[:-1], op, str(a[1])[:120]), None, exp))
                 if b[0] != "ok" or [x[2:] for x in b[1] if isinstance(x, list)] != [x[2:] for x in exp if isinstance(x, list)] or \
@@ -327,6 +336,10 @@ def run(ctx):
         for pos in range(3):
             lst = [0, 1, 2]
             lst[pos] = H + pos
+            cases.append({"k": "refuse", "root": root, "form": "derive_path", "arg": lst})
+        for pos in range(8):                      # ... and at every position of an eight-level path
+            lst = [0, 1, 2, 3, 4, 5, 6, 7]
+            lst[pos] = H + 5
             cases.append({"k": "refuse", "root": root, "form": "derive_path", "arg": lst})
         for iv in ([H, H + 2], [H - 1, H + 1], [2**32 - 2, 2**32]):
             cases.append({"k": "refuse", "root": root, "form": "generate_children", "arg": iv})
